@@ -33,8 +33,15 @@ impl ConnState {
         ensures final(cnt).v == old(cnt).v - 1, // @prop C19
 //@end
 }
+// the call Rust makes when a ConnState goes out of scope without having been moved out (rule Rdrop); same contract as the proved Drop::drop
+#[verifier::external_body]
+pub fn verif_drop_conn_state(c: ConnState, Tracked(cnt): Tracked<&mut SlotCounter>)
+    requires old(cnt).v >= 1,
+    ensures final(cnt).v == old(cnt).v - 1
+{ unimplemented!() }
 impl MainState {
 //@fn state/mod.rs MainState::register_conn_state unit=slots props=C19,C05 rules=R3,R6c
+//@implicitdrop ConnState::new verif_drop_conn_state Tracked(cnt)
 //@spec
         requires 0 <= old(cnt).v < usize::MAX,
         ensures
